@@ -154,7 +154,29 @@ def stall_key(s):
     return who + ":" + killer(s.lastp)
 
 
-def evaluate(ctx, prop, profile, scheds, m, mf, stats, tag):
+def confirm_stall(ctx, hb, profile, s, tag):
+    """A stall verdict is confirmed before it is reported: the schedule is run once more, alone (no other worker of
+    this check is running), with a 4x watchdog. A real stall is deterministic under the controlled scheduler, so it
+    stalls again; a verdict that does not repeat was the machine being slow."""
+    name = "confirm-%s-%s" % (re.sub(r"[^A-Za-z0-9]", "_", tag), s.idx)
+    sp = script_file(ctx, name, [(s.ncallers, "confirm", s.cfg, s.script)])
+    tr = "%s/%s.trace" % (ctx.work, name)
+    env = ctx.env()
+    base = int(os.environ.get("VERIF_WATCHDOG_MS", "8000") or "8000")
+    env["VERIF_WATCHDOG_MS"] = str(4 * base)
+    env["VERIF_STALL_MS"] = str(4 * int(os.environ.get("VERIF_STALL_MS", "300") or "300"))
+    rc, out = C.sh([hb, "run", profile, "script", sp, tr], env=env, timeout=1200, cwd=ctx.work)
+    if rc != 0:
+        raise C.BuildError("client harness c11 failed while confirming a stall (rc=%s): %s" % (rc, out[-1500:]))
+    again = parse_trace(tr)
+    for a in again.values():
+        if (a.status or "").startswith("stuck"):
+            return True, a
+        return False, a
+    return False, None
+
+
+def evaluate(ctx, prop, profile, scheds, m, mf, stats, tag, hb=None):
     """Adds violations of `prop` for one batch; returns (validated, disagreements)."""
     validated = 0
     disagreements = 0
@@ -189,6 +211,16 @@ def evaluate(ctx, prop, profile, scheds, m, mf, stats, tag):
                              got=st, panic=s.died))
         elif st.startswith("stuck"):
             k = stall_key(s)
+            stall_keys = ["receive-loop-blocked:" + k, "salt-rotation:receive-loop-stalled:" + k, "stalled:" + k]
+            known_already = any(v[0] in stall_keys for v in ctx.violations)
+            if hb is not None and not known_already and not tag.startswith("confirm"):
+                real, again = confirm_stall(ctx, hb, profile, s, tag)
+                if not real:
+                    stats["timing_retries"] += 1
+                    ctx.notes.append("a stall verdict (%s, schedule %s/%s) did not repeat when the schedule was run alone with a 4x "
+                                     "watchdog: counted as timing_retries, not reported" % (st, tag, s.idx))
+                    continue
+                stats["stalls_confirmed"] += 1
             if prop == "C16":
                 key = "receive-loop-blocked:" + k
             elif prop == "C11":
@@ -302,7 +334,7 @@ def run_batches(ctx, prop, profile, n_random, pinned, enum_scopes=()):
         batches.append(("enum-%s-%s" % (k0, k1), "script", path))
     for (tag, mode, arg) in batches:
         scheds, m, mf = record(ctx, hb, profile, mode, arg, tag)
-        v, d = evaluate(ctx, prop, profile, scheds, m, mf, stats, tag)
+        v, d = evaluate(ctx, prop, profile, scheds, m, mf, stats, tag, hb)
         validated += v
         disagreements += d
         for s in scheds.values():
@@ -348,8 +380,11 @@ ASSUMPTIONS = [
     "read deadline, abortive connection loss (RST) and writes racing with a close are outside the explored histories",
     "PHONE_MIGRATE_X (Reconnect from a caller's goroutine) stays the terminal caller pc CStuck of Client/Model.v: it belongs to C17",
     "the key exchange is one atomic label of the model (its internals are C06 / C07); the session store never fails",
-    "a frame whose processing ends in an error is abandoned as a whole: later items of the same container are not processed and the "
-    "acknowledgements of that frame are not sent - the model describes this, C10_acks_live excludes such histories (failed = 0)",
+    "a message whose body cannot be handled (undecodable, rpc_result nobody waits for, bad_msg_notification) is acknowledged like any "
+    "other and does not cut off the rest of its container; of several errors inside one frame only the first reaches Warnings (that is "
+    "the code); what the transport itself refuses (undecryptable packet, 4-byte error code) has no msg_id and is not acknowledged",
+    "a stall verdict is reported only if it repeats when the schedule is run alone with a 4x watchdog (timing_retries in the input "
+    "distribution counts the ones that did not)",
 ]
 
 
